@@ -47,7 +47,7 @@ def mk(src, tgt, excluded=(), mcp=None, patterns=None, name=None, with_max=False
     return s
 
 
-def _sub_lists(c, n_max=3):
+def _sub_lists(c, n_max=5):
     """override lists as a grouping node could produce for this connector: a subset of plausible sums"""
     if c['conns'] is not None:
         base = c['conns']
@@ -57,7 +57,9 @@ def _sub_lists(c, n_max=3):
     if len(base) >= 2:
         outs.append(base[:-1])
         outs.append(base[1:])
+    outs.append([0, 2])  # lists with gaps (a grouping connector over members with non-contiguous degrees)
     outs.append([0, 1])
+    outs.append([1, 3])
     outs.append([1])
     outs.append([0, 1, 2, 3])
     seen, res = set(), []
@@ -69,7 +71,7 @@ def _sub_lists(c, n_max=3):
     return res[:n_max]
 
 
-def default_patterns(s, rnd=None, n_override=2, with_max=False):
+def default_patterns(s, rnd=None, n_override=3, with_max=False):
     ns, nt = len(s['src']), len(s['tgt'])
     pats = [pattern(ns, nt)]
     for i in range(ns):
